@@ -1,7 +1,7 @@
 """C02 -- repetition bounds (`times`) are honoured exactly."""
 from ..tmplcheck import family_results, report
 
-FLOORS = {"C02.T.bounds": 40, "C02.T.group": 40, "C02.T1.times-extraction": 1000, "C02.T.none": 500, "C02.T3.A2.sequence": 4, "C02.T3.R1.frame-end": 20}
+FLOORS = {"C02.T5.times-of-a-macro-use": 8, "C02.T.bounds": 40, "C02.T.group": 40, "C02.T1.times-extraction": 1000, "C02.T.none": 500, "C02.T3.A2.sequence": 4, "C02.T3.R1.frame-end": 20}
 
 
 def run(ctx) -> None:
@@ -34,3 +34,16 @@ def run(ctx) -> None:
     from ..streamshapes import witnesses
     if ctx.tier == "thorough" or ('times',):
         witnesses(ctx, _mkw(ctx.p), "C02.W.canonical-witness-is-found", tags=('times',) if ctx.tier != "thorough" or "C02" != "C07" else ())
+    # T5: `times` written on (or inside) a macro use is the times of the expansion: the rule written with macros compiles to
+    # the regex of the inlined rule, for every use form that carries times (the expansion itself is judged under C13)
+    from .c13 import SHAPES as _MS, TIMED_TWICE as _MT, compiled_regexes
+    Im = _mk(ctx.p)
+    for label, macros, pattern, inlined in [x for x in _MS if "times" in x[0]] + list(_MT):
+        with_m = compiled_regexes(Im, ctx.p, {"macros": macros, "pattern": pattern})
+        manual = compiled_regexes(Im, ctx.p, {"pattern": inlined})
+        if not any(k == "return" for _, k, _ in manual):
+            from ..facts import AnalysisError
+            raise AnalysisError(f"C02.T5 shape '{label}': the inlined rule compiles under no flag setting")
+        diff = sorted(with_m ^ manual, key=str)
+        ctx.check(not diff, "C02.T5.times-of-a-macro-use", f"produce_regex[{label}]", (str(diff[0]) if diff else "")[:300],
+                  f"a rule whose repeated item is written with a macro compiles to the regex of the inlined rule ({label})")
